@@ -172,8 +172,10 @@ func _yieldMarshalMachinePtrForAtlasEntry(row *marshalSlabRow, entry *atlas.Atla
 		// We can't just call the func here because we're still working off typeinfo
 		// and don't have a real value to transform until later.
 		row.marshalMachineTransform.trFunc = entry.MarshalTransformFunc
-		// Pick delegate without growing stack.  (This currently means recursive transform won't fly.)
-		row.marshalMachineTransform.delegate = _yieldMarshalMachinePtr(row, atl, entry.MarshalTransformTargetType)
+		// The delegate for the serial form is requisitioned (on a slab row of its own) when the
+		// machine is reset: this row's machines may be busy getting us here (a pointer to the
+		// transformed type, a transform around a transform, a union member).
+		row.marshalMachineTransform.wire_rt = entry.MarshalTransformTargetType
 		// If tags are in play: have the transformer machine glue that on.
 
 		row.marshalMachineTransform.tagged = entry.Tagged
